@@ -833,21 +833,27 @@ class _UnlessAsIf(ast.NodeTransformer):
     """Spell the unless classes, tag names and end markers as their `if` counterparts; constructor calls of liquid2 classes get
     their arguments by keyword (so `BlockNode(tok, nodes)` and `BlockNode(token=tok, nodes=nodes)` are one call)."""
 
-    def __init__(self, prog: Program) -> None:
+    def __init__(self, prog: Program, renames: tuple[tuple[str, str], ...] = (("Unless", "If"), ("unless", "if"))) -> None:
         self.prog = prog
+        self.renames = renames
+
+    def _r(self, text: str) -> str:
+        for a, b in self.renames:
+            text = text.replace(a, b)
+        return text
 
     def visit_Name(self, node: ast.Name) -> ast.AST:
-        node.id = node.id.replace("Unless", "If").replace("unless", "if")
+        node.id = self._r(node.id)
         return node
 
     def visit_Attribute(self, node: ast.Attribute) -> ast.AST:
         self.generic_visit(node)
-        node.attr = node.attr.replace("Unless", "If").replace("unless", "if")
+        node.attr = self._r(node.attr)
         return node
 
     def visit_Constant(self, node: ast.Constant) -> ast.AST:
         if isinstance(node.value, str):
-            node.value = node.value.replace("unless", "if").replace("Unless", "If")
+            node.value = self._r(node.value)
         return node
 
     def visit_Call(self, node: ast.Call) -> ast.AST:
@@ -1331,7 +1337,7 @@ def check_freshness_covers_search(prog: Program, res: Result, rule: str) -> None
         for ci in mod.classes.values():
             # first-match searches of this class: a loop over self.<candidates> with a return inside it
             searches: dict[str, str] = {}
-            for mn, mf in ci.methods.items():
+            for mn, mf in [(mn_, mf_) for b_ in reversed(prog.mro(ci)) if b_.file.startswith("liquid2/builtin/loaders/") for mn_, mf_ in b_.methods.items()]:
                 for lp in ast.walk(mf.node):
                     if isinstance(lp, (ast.For, ast.AsyncFor)) and isinstance(lp.iter, ast.Attribute) and isinstance(lp.iter.value, ast.Name) and lp.iter.value.id == "self" and any(isinstance(r, ast.Return) and r.value is not None for r in ast.walk(lp)):
                         searches[mn] = lp.iter.attr
@@ -1352,8 +1358,8 @@ def check_freshness_covers_search(prog: Program, res: Result, rule: str) -> None
                 return seen
 
             for gs in ("get_source", "get_source_async"):
-                f = ci.methods.get(gs)
-                if f is None:
+                f = prog.find_method(ci, gs)  # own or inherited: a subclass that overrides the freshness test is judged with the getter it inherits
+                if f is None or (gs not in ci.methods and not any(m in ci.methods for m in refs(gs, set()))):
                     continue
                 used = refs(gs, set()) & set(searches)
                 if not used:
@@ -1428,3 +1434,186 @@ def check_decimal_remainder(prog: Program, res: Result, rule: str) -> None:
             else:
                 res.fail(rule, file=fi.file, line=b.lineno, qualname=fi.qualname, construct=f"{fi.qualname}: bare Decimal `{'%' if isinstance(b.op, ast.Mod) else '//'}` beside an integer branch", message=f"{fi.qualname} computes `{norm(b, 70)}`: Decimal's remainder takes the sign of the dividend, the integer branch's (and Liquid's) the sign of the divisor - `{{{{ -5 | modulo: 3 }}}}` is 1 but `{{{{ -5.0 | modulo: 3 }}}}` is -2.0", what=what)
     res.floor(rule, "Decimal remainders in the math filters", n, 1)
+
+
+def check_sibling_tags(prog: Program, res: Result, rule: str, mod_a: str, mod_b: str, pairs: tuple[tuple[str, str], ...], renames: tuple[tuple[str, str], ...], *, only: tuple[str, ...] | None = None) -> None:
+    """Two tags that are copies of each other up to a name (increment / decrement): class by class, method by method, equal after
+    the renaming - what one does to its argument (decode a quoted name, attach the token, print it back) the other does too."""
+    from sa.twins import diff_functions
+    from sa.twins import normalise
+
+    ma, mb = prog.mod(mod_a), prog.mod(mod_b)
+    n = 0
+    for ca, cb in pairs:
+        a, b = ma.classes.get(ca), mb.classes.get(cb)
+        if a is None or b is None:
+            raise AnalysisError(f"{ca} / {cb} vanished")
+        for name in sorted(set(a.methods) | set(b.methods)):
+            if only is not None and name not in only:
+                continue
+            fa, fb = a.methods.get(name), b.methods.get(name)
+            what = f"{ca}.{name} is {cb}.{name} up to the name of the tag"
+            if fa is None or fb is None:
+                have, lack = (ca, cb) if fa is not None else (cb, ca)
+                f_ = fa or fb
+                res.fail(rule, file=f_.file, line=f_.node.lineno, qualname=f_.qualname, construct=f"{have}.{name} has no counterpart in {lack}", message=f"{have} defines {name} and {lack} does not: the two tags are copies of each other up to their name, so one of them handles its argument differently", what=what)
+                continue
+            n += 1
+            ta = _UnlessAsIf(prog, renames).visit(copy.deepcopy(fa.node))
+            tb = _UnlessAsIf(prog, renames).visit(copy.deepcopy(fb.node))
+            diffs = diff_functions(normalise(ta), normalise(tb))
+            if diffs:
+                d = diffs[0]
+                res.fail(rule, file=fa.file, line=d.sync_line or fa.node.lineno, qualname=fa.qualname, construct=f"{ca}.{name} differs from {cb}.{name}", message=f"{ca}.{name} and {cb}.{name} differ beyond the tag's name: `{d.sync_text[:80]}` vs `{d.async_text[:80]}` ({len(diffs)} difference(s)) - the same argument (a quoted, escaped name; a token) is treated differently by the two tags", what=what)
+            else:
+                res.ok(rule, f"{fa.file}:{fa.node.lineno} {fa.qualname}", what, "equal after renaming")
+    res.floor(rule, "sibling method pairs", n, 3 if only is None else 1)
+
+
+def check_selection_predicates_agree(prog: Program, res: Result, rule: str) -> None:
+    """where, find, find_index and has select by the same three predicates (lambda result defined and truthy; property equal to the
+    value; property neither false nor nil) under the same two branch tests: what `where` keeps is what `find` returns first, `has`
+    reports and `find_index` counts to. Predicates are compared after the element variables are renamed to one letter."""
+    sites: list[tuple[str, object]] = []
+    for rel, cls in (("liquid2/builtin/filters/filtering_filters.py", "WhereFilter"), ("liquid2/builtin/filters/find_filters.py", "FindFilter"), ("liquid2/builtin/filters/find_filters.py", "FindIndexFilter"), ("liquid2/builtin/filters/find_filters.py", "HasFilter")):
+        ci = prog.mod(rel).classes.get(cls)
+        f = ci.methods.get("__call__") if ci is not None else None
+        if f is None:
+            raise AnalysisError(f"{cls}.__call__ vanished")
+        sites.append((cls, f))
+
+    def signature(f) -> tuple[frozenset[str], frozenset[str]]:  # noqa: ANN001
+        preds: set[str] = set()
+        branches: set[str] = set()
+
+        def rename(e: ast.AST, elems: set[str]) -> str:
+            t = copy.deepcopy(e)
+            for x in ast.walk(t):
+                if isinstance(x, ast.Name) and x.id in elems:
+                    x.id = "E"
+            return norm(t, 300)
+
+        for n in ast.walk(f.node):
+            if isinstance(n, (ast.ListComp, ast.GeneratorExp)):
+                for g in n.generators:
+                    elems = {x.id for x in ast.walk(g.target) if isinstance(x, ast.Name)}
+                    for c in g.ifs:
+                        preds.add(rename(c, elems))
+            elif isinstance(n, ast.For):
+                elems = {x.id for x in ast.walk(n.target) if isinstance(x, ast.Name)}
+                for st in n.body:
+                    if isinstance(st, ast.If):
+                        preds.add(rename(st.test, elems))
+            elif isinstance(n, ast.If) and not any(isinstance(a, ast.For) for a in f.module.ancestors(n)):
+                # the atoms of the branch test, polarity dropped: `if A: … else: …` and `if not A: … else: …` are one branching
+                stack = [n.test]
+                while stack:
+                    t_ = stack.pop()
+                    if isinstance(t_, ast.BoolOp):
+                        stack += t_.values
+                    elif isinstance(t_, ast.UnaryOp) and isinstance(t_.op, ast.Not):
+                        stack.append(t_.operand)
+                    elif isinstance(t_, ast.Compare) and len(t_.ops) == 1 and isinstance(t_.ops[0], (ast.IsNot, ast.NotEq, ast.NotIn)):
+                        pos_ = copy.deepcopy(t_)
+                        pos_.ops = [{ast.IsNot: ast.Is, ast.NotEq: ast.Eq, ast.NotIn: ast.In}[type(t_.ops[0])]()]
+                        branches.add(norm(pos_, 300))
+                    else:
+                        branches.add(norm(t_, 300))
+        return frozenset(preds), frozenset(branches)
+
+    sigs = [(cls, f, signature(f)) for cls, f in sites]
+    ref_cls, _ref_f, ref = sigs[0]
+    res.floor(rule, "selection predicates of where", len(ref[0]), 3)
+    for cls, f, sig in sigs[1:]:
+        site = f"{f.file}:{f.node.lineno} {cls}.__call__"
+        what = f"{cls}.__call__ selects by the predicates of {ref_cls}"
+        if sig == ref:
+            res.ok(rule, site, what, f"{len(sig[0])} predicates, {len(sig[1])} branch tests")
+        else:
+            extra = sorted((sig[0] | sig[1]) - (ref[0] | ref[1]))
+            missing = sorted((ref[0] | ref[1]) - (sig[0] | sig[1]))
+            res.fail(rule, file=f.file, line=f.node.lineno, qualname=f"{cls}.__call__", construct=f"{cls}.__call__: selection predicates differ from {ref_cls}'s", message=f"{cls} selects items by `{(extra or ['<nothing>'])[0][:70]}` where {ref_cls} uses `{(missing or ['<nothing>'])[0][:70]}`: `where` and `{cls.replace('Filter', '').lower()}` disagree on which items match (an item whose property is missing or undefined, a value of nil)", what=what)
+
+
+def check_filter_text_spelling(prog: Program, res: Result, rule: str) -> None:
+    """Text a filter adds to its result is spelt as an output statement would spell it: a filter parameter turned into text with the
+    builtin str() and then concatenated, joined, sliced or returned puts Python's spelling into the output (`True`, `None`) where
+    Liquid's is `true` and the empty string - to_liquid_string() is the one stringifier. str() of a parameter that only feeds a key
+    lookup, a number parser or a comparison is not output and is left alone."""
+    n = 0
+    for mod in sorted(prog.modules.values(), key=lambda m: m.relpath):
+        if not (mod.relpath.startswith("liquid2/builtin/filters/") or mod.relpath.startswith("liquid2/shopify/filters/")):
+            continue
+        for fi in mod.functions.values():
+            params = set(fi.params()) - {"self", "cls"}
+            for c in ast.walk(fi.node):
+                if not (isinstance(c, ast.Call) and isinstance(c.func, ast.Name) and c.func.id == "str" and len(c.args) == 1 and isinstance(c.args[0], ast.Name) and c.args[0].id in params and prog.enclosing_function(mod, c) is fi):
+                    continue
+                n += 1
+                par = mod.parent(c)
+                # under `isinstance(p, str)` / `isinstance(p, int)` str() and to_liquid_string() spell alike (bool is handled before int by neither: see below)
+                from checks.C15 import _path_condition
+                from checks.C17 import _known_leaves
+
+                narrowed = any(v and txt.startswith(f"isinstance({c.args[0].id}, ") and txt.split(", ", 1)[1].rstrip(")") in ("str", "int", "float", "(int, float)", "(float, int)", "Markup") for t_, pol_ in _path_condition(mod, fi.node, c) for txt, v in _known_leaves(t_, pol_))
+                if narrowed:
+                    res.ok(rule, f"{mod.relpath}:{c.lineno} {fi.qualname}", f"{fi.qualname}: `{norm(c)}` does not reach the output", "narrowed to str / a number: both stringifiers spell it alike")
+                    continue
+                # where does the text go?
+                to_output = None
+                if isinstance(par, ast.BinOp) and isinstance(par.op, ast.Add):
+                    to_output = "concatenated"
+                elif isinstance(par, ast.Attribute) and par.attr == "join":
+                    to_output = "used as the separator of a join"
+                elif isinstance(par, ast.Return):
+                    to_output = "returned"
+                elif isinstance(par, ast.Assign) and len(par.targets) == 1 and isinstance(par.targets[0], ast.Name):
+                    v = par.targets[0].id
+                    for u in ast.walk(fi.node):
+                        if isinstance(u, ast.Name) and u.id == v and isinstance(u.ctx, ast.Load):
+                            up = mod.parent(u)
+                            if isinstance(up, ast.BinOp) and isinstance(up.op, ast.Add):
+                                to_output = "concatenated"
+                            elif isinstance(up, ast.Attribute) and up.attr == "join" and isinstance(mod.parent(up), ast.Call):
+                                to_output = "used as the separator of a join"
+                            elif isinstance(up, ast.Return):
+                                to_output = "returned"
+                            elif isinstance(up, ast.Subscript) and up.value is u and any(isinstance(a, ast.Return) for a in mod.ancestors(up)):
+                                to_output = "sliced into the result"
+                            elif isinstance(up, ast.Call) and u in up.args and (dotted(up.func) or "").split(".")[-1] in ("truncate_chars", "truncate_words") and any(isinstance(a, ast.Return) for a in mod.ancestors(up)):
+                                to_output = "appended by the truncation helper"
+                site = f"{mod.relpath}:{c.lineno} {fi.qualname}"
+                what = f"{fi.qualname}: `{norm(c)}` does not reach the output"
+                if to_output is None:
+                    res.ok(rule, site, what, "feeds a lookup, a parser or a comparison")
+                else:
+                    res.fail(rule, file=mod.relpath, line=c.lineno, qualname=fi.qualname, construct=f"{fi.qualname}: `{norm(c)}` is {to_output}", message=f"{fi.qualname} spells its argument with the builtin `{norm(c)}` and the text is {to_output}: `true`, `false` and `nil` arrive as `True`, `False` and `None` - `{{{{ 'a' | append: true }}}}` renders `aTrue` where `{{{{ 'a' | prepend: true }}}}` renders `truea`; to_liquid_string() is the spelling of the output statement", what=what)
+    res.floor(rule, "str() of a filter parameter", n, 15)
+
+
+def check_truthiness_by_membership(prog: Program, res: Result, rule: str) -> None:
+    """Liquid truth is identity with false / nil: `x in (False, None)` compares by equality, and 0 == False (1 == True) in Python, so
+    an item whose property is 0 is taken for false - `where: 'count'` drops it, `find` skips it. is_truthy() is the test."""
+    pos = ast.parse("x not in (False, None)", mode="eval").body
+
+    def hit(c: ast.AST) -> bool:
+        return isinstance(c, ast.Compare) and len(c.ops) == 1 and isinstance(c.ops[0], (ast.In, ast.NotIn)) and isinstance(c.comparators[0], (ast.Tuple, ast.List, ast.Set)) and any(isinstance(e, ast.Constant) and isinstance(e.value, bool) for e in c.comparators[0].elts)
+
+    if not hit(pos):
+        raise AnalysisError(f"{rule}: positive example not matched")
+    n = 0
+    for mod in sorted(prog.modules.values(), key=lambda m: m.relpath):
+        if not (mod.relpath.startswith("liquid2/builtin/filters/") or mod.relpath.startswith("liquid2/shopify/filters/") or mod.relpath == "liquid2/filter.py"):
+            continue
+        for fi in mod.functions.values():
+            n += 1
+            for c in ast.walk(fi.node):
+                if hit(c) and prog.enclosing_function(mod, c) is fi:
+                    # numbers are turned away before the test: `if … isinstance(obj, (int, float, …)): return obj` earlier in the function
+                    early = [i for i in ast.walk(fi.node) if isinstance(i, ast.If) and i.lineno < c.lineno and i.body and isinstance(i.body[-1], ast.Return) and any(isinstance(x, ast.Call) and isinstance(x.func, ast.Name) and x.func.id == "isinstance" and len(x.args) == 2 and "int" in norm(x.args[1]) and "float" in norm(x.args[1]) for x in ast.walk(i.test))]
+                    if early:
+                        res.ok(rule, f"{mod.relpath}:{c.lineno} {fi.qualname}", f"{fi.qualname}: `{norm(c, 40)}` never sees a number", f"numbers return at line {early[0].lineno}")
+                        continue
+                    res.fail(rule, file=mod.relpath, line=c.lineno, qualname=fi.qualname, construct=f"{fi.qualname}: truth decided by membership in `{norm(c.comparators[0])}`", message=f"{fi.qualname} tests `{norm(c, 60)}`: membership compares with ==, and 0 == False, so a property that is 0 (or 0.0) counts as false - `{{{{ items | where: 'n' }}}}` drops the item whose n is 0 although 0 is truthy in Liquid", what=f"{fi.qualname}: truth of a data value is decided by is_truthy()")
+    res.ok(rule, "liquid2/builtin/filters/*", "no filter decides truth by membership in a tuple holding True / False", f"{n} functions; positive example matched")
+    res.floor(rule, "filter functions scanned", n, 100)
